@@ -11,7 +11,7 @@ from props.C15 import Machine
 
 USES_TRANSLATOR = True
 DRIVER = 'MainGen.lean'
-REQUIRED_THEOREMS = ['Usid.C14.ranks_see_initial_status', 'Usid.C14.generated_assign_eq_hand', 'Usid.C14.generated_window_eq_hand',
+REQUIRED_THEOREMS = ['Usid.C14.ranks_see_initial_status', 'Usid.C14.generated_assign_eq_hand', 'Usid.C14.generated_assign_first_end', 'Usid.C14.generated_window_eq_hand',
                      'Usid.C14.ranges_partition', 'Usid.C14.ranges_cover_disjoint',
                      'Usid.C14.ranks_concat_eq_pending', 'Usid.C14.rank_batches', 'Usid.C14.socket_master']
 RULE = ('[also: groups left by an old version - last_pixel only - resumed by several ranks] [also: the synchronisation skeleton of compute() is extracted from the current source and must satisfy the hypothesis Safe of theorem ranks_see_initial_status] [also: the ranks INTERLEAVED on one file - every rank runs compute() in its own thread under a deterministic cooperative scheduler with a fake mpi4py (rank, size, barrier), lowest or highest runnable rank first] [also: lazy reading, verbose=True] random (N positions up to 40, completion mask, rank count R, batch limit - common to all ranks or DIFFERENT per rank, as on '
